@@ -309,6 +309,24 @@ def pat_set(ev, p, universe, env=None):
 # repository's code: calls other than the handful of pure std helpers listed here
 # are Unanalysable.
 
+INT_BOUNDS = {'u8': (0, 255), 'u16': (0, 65535), 'u32': (0, 2 ** 32 - 1), 'u64': (0, 2 ** 64 - 1), 'usize': (0, 2 ** 64 - 1),
+              'i8': (-128, 127), 'i16': (-2 ** 15, 2 ** 15 - 1), 'i32': (-2 ** 31, 2 ** 31 - 1), 'i64': (-2 ** 63, 2 ** 63 - 1)}
+
+BYTE_PREDICATES = {
+    'is_ascii_digit': lambda b: 0x30 <= b <= 0x39,
+    'is_ascii_control': lambda b: b <= 0x1f or b == 0x7f,
+    'is_ascii_alphabetic': lambda b: 0x41 <= b <= 0x5a or 0x61 <= b <= 0x7a,
+    'is_ascii_alphanumeric': lambda b: 0x30 <= b <= 0x39 or 0x41 <= b <= 0x5a or 0x61 <= b <= 0x7a,
+    'is_ascii_hexdigit': lambda b: 0x30 <= b <= 0x39 or 0x41 <= b <= 0x46 or 0x61 <= b <= 0x66,
+    'is_ascii_uppercase': lambda b: 0x41 <= b <= 0x5a,
+    'is_ascii_lowercase': lambda b: 0x61 <= b <= 0x7a,
+    'is_ascii_whitespace': lambda b: b in (0x20, 0x09, 0x0a, 0x0c, 0x0d),
+    'is_ascii_punctuation': lambda b: 0x21 <= b <= 0x2f or 0x3a <= b <= 0x40 or 0x5b <= b <= 0x60 or 0x7b <= b <= 0x7e,
+    'is_ascii_graphic': lambda b: 0x21 <= b <= 0x7e,
+    'is_ascii': lambda b: b <= 0x7f,
+}
+
+
 class Ret(Exception):
     def __init__(self, v):
         self.v = v
@@ -354,7 +372,10 @@ class Interp:
                 raise Unanalysable(f'unbound local `{p}`')
             if res.startswith('Ctor'):
                 return ('ctor', p)
-            return self.ev.integer(e, env)
+            try:
+                return self.ev.integer(e, env)
+            except Unanalysable:
+                return tuple(self.ev.array(e))
         if k in ('cast', 'addrof'):
             return self.val(e['a'], env)
         if k == 'unary':
@@ -385,6 +406,29 @@ class Interp:
             if 'else' in e:
                 return self.val(e['else'], env)
             return ()
+        if k == 'match' and 'TryDesugar' in (e.get('src') or ''):
+            sc = e['scrut']
+            inner = sc['args'][0] if sc.get('k') == 'call' and sc.get('args') else sc
+            v = self.val(inner, env)
+            if isinstance(v, tuple) and v and v[0] == 'ctor':
+                if v[1].endswith('Result::Ok') or v[1].endswith('Option::Some'):
+                    return v[2][0]
+                if v[1].endswith('Result::Err') or v[1].endswith('Option::None'):
+                    raise Ret(v)
+            raise Unanalysable('`?` on a value the evaluator does not model')
+        if k == 'index':
+            base = self.val(e['base'], env)
+            idx = self.val(e['idx'], env)
+            if isinstance(base, (str, tuple, list)) and not (isinstance(base, tuple) and base and base[0] in ('ctor', 'struct', 'range', 'closure')):
+                if isinstance(idx, tuple) and idx and idx[0] == 'range':
+                    lo = 0 if idx[1] in (None, -INF) else idx[1]
+                    hi = len(base) if idx[2] in (None, INF) else idx[2] + 1
+                    if lo > hi or hi > len(base):
+                        raise Unanalysable('slice out of range in evaluation')
+                    return base[lo:hi]
+                if isinstance(idx, int) and not isinstance(idx, bool) and 0 <= idx < len(base):
+                    return base[idx]
+            raise Unanalysable('index expression the evaluator does not model')
         if k == 'match':
             v = self.val(e['scrut'], env)
             for arm in e['arms']:
@@ -397,11 +441,22 @@ class Interp:
             raise Unanalysable('non-exhaustive match in evaluation')
         if k == 'tup':
             return tuple(self.val(x, env) for x in e['elems'])
+        if k == 'closure':
+            return ('closure', e, dict(env))
         if k == 'call':
             f = peel(e.get('f', {}))
             p = f.get('path', '')
+            if f.get('k') == 'path' and f.get('res') == 'Local':
+                fv = self.val(f, env)
+                if isinstance(fv, tuple) and fv and fv[0] == 'closure':
+                    return self.apply(fv, [self.val(a, env) for a in e.get('args', [])])
+            if f.get('k') == 'closure':
+                return self.apply(('closure', f, dict(env)), [self.val(a, env) for a in e.get('args', [])])
             args = [self.val(a, env) for a in e.get('args', [])]
             seg = last_seg(p)
+            body = self._workspace_body(f)
+            if body is not None and not f.get('res', '').startswith('Ctor'):
+                return self.apply_fn(body, args)
             if f.get('res', '').startswith('Ctor'):
                 return ('ctor', p, tuple(args))
             if seg == 'from' and len(args) == 1:
@@ -418,6 +473,71 @@ class Interp:
             args = [self.val(a, env) for a in e.get('args', [])]
             if name == 'contains' and isinstance(recv, tuple) and recv[0] == 'range':
                 return recv[1] <= args[0] <= recv[2]
+            if isinstance(recv, int) and not isinstance(recv, bool) and name in BYTE_PREDICATES and not args:
+                return BYTE_PREDICATES[name](recv)
+            SOME, NONE, OK, ERR = 'core::option::Option::Some', 'core::option::Option::None', 'core::result::Result::Ok', 'core::result::Result::Err'
+            if isinstance(recv, (str, tuple)) and not (isinstance(recv, tuple) and recv and recv[0] in ('ctor', 'struct', 'range', 'closure')):
+                if name == 'len' and not args:
+                    return len(recv)
+                if name == 'is_empty' and not args:
+                    return len(recv) == 0
+                if name == 'get' and len(args) == 1 and isinstance(args[0], int):
+                    return ('ctor', SOME, (recv[args[0]],)) if 0 <= args[0] < len(recv) else ('ctor', NONE)
+                if name == 'parse' and isinstance(recv, str) and not args:
+                    ty = (e.get('gargs') or [''])[0]
+                    if ty in INT_BOUNDS and recv.isdigit():
+                        val = int(recv)
+                        return ('ctor', OK, (val,)) if INT_BOUNDS[ty][0] <= val <= INT_BOUNDS[ty][1] else ('ctor', ERR, (('parse-error',),))
+                    if ty in INT_BOUNDS:
+                        return ('ctor', ERR, (('parse-error',),))
+            if isinstance(recv, int) and not isinstance(recv, bool) and name in ('checked_mul', 'checked_add', 'checked_sub') and len(args) == 1:
+                ty = [t for t in INT_BOUNDS if f'Option<{t}>' in (e.get('t') or '')]
+                if ty:
+                    r = {'checked_mul': recv * args[0], 'checked_add': recv + args[0], 'checked_sub': recv - args[0]}[name]
+                    return ('ctor', SOME, (r,)) if INT_BOUNDS[ty[0]][0] <= r <= INT_BOUNDS[ty[0]][1] else ('ctor', NONE)
+            if isinstance(recv, tuple) and recv and recv[0] == 'ctor':
+                if recv[1] in (SOME, NONE):
+                    if name == 'ok_or' and len(args) == 1:
+                        return ('ctor', OK, recv[2]) if recv[1] == SOME else ('ctor', ERR, (args[0],))
+                    if name == 'ok_or_else' and len(args) == 1:
+                        return ('ctor', OK, recv[2]) if recv[1] == SOME else ('ctor', ERR, (self.apply(args[0], []),))
+                    if name == 'is_some' and not args:
+                        return recv[1] == SOME
+                if recv[1] in (OK, ERR):
+                    if name == 'map_err' and len(args) == 1:
+                        return recv if recv[1] == OK else ('ctor', ERR, (self.apply(args[0], [recv[2][0]]),))
+                    if name == 'map' and len(args) == 1:
+                        return ('ctor', OK, (self.apply(args[0], [recv[2][0]]),)) if recv[1] == OK else recv
+                    if name == 'ok' and not args:
+                        return ('ctor', SOME, recv[2]) if recv[1] == OK else ('ctor', NONE)
+                    if name in ('is_ok', 'is_err') and not args:
+                        return (recv[1] == OK) == (name == 'is_ok')
+            if isinstance(recv, bool):
+                if name == 'then' and len(args) == 1 and isinstance(args[0], tuple) and args[0] and args[0][0] == 'closure':
+                    return ('ctor', 'core::option::Option::Some', (self.apply(args[0], []),)) if recv else ('ctor', 'core::option::Option::None')
+                if name == 'then_some' and len(args) == 1:
+                    return ('ctor', 'core::option::Option::Some', (args[0],)) if recv else ('ctor', 'core::option::Option::None')
+                if name == 'not' and not args:
+                    return not recv
+            if isinstance(recv, tuple) and recv and recv[0] == 'ctor' and recv[1].startswith('core::option::Option::'):
+                some = recv[1].endswith('::Some')
+                if name == 'is_none':
+                    return not some
+                if name == 'unwrap_or' and len(args) == 1:
+                    return recv[2][0] if some else args[0]
+                if name in ('map_or',) and len(args) == 2:
+                    return self.apply(args[1], [recv[2][0]]) if some else args[0]
+                if name == 'map' and len(args) == 1:
+                    return ('ctor', recv[1], (self.apply(args[0], [recv[2][0]]),)) if some else recv
+                if name in ('unwrap_or_else', 'map_or_else'):
+                    if some:
+                        return recv[2][0] if name == 'unwrap_or_else' else self.apply(args[1], [recv[2][0]])
+                    return self.apply(args[0], [])
+            if name in ('eq', 'ne') and len(args) == 1:
+                return (recv == args[0]) if name == 'eq' else (recv != args[0])
+            body = self._workspace_method(e)
+            if body is not None:
+                return self.apply_fn(body, [recv] + args)
             if name in ('into', 'clone', 'to_owned'):
                 return recv
             if name == 'is_some':
@@ -436,11 +556,24 @@ class Interp:
                 r = recv + args[0] if name == 'saturating_add' else recv - args[0]
                 return max(bounds[0], min(bounds[1], r))
             raise Unanalysable(f'method `{name}` in a pure expression')
+        if k == 'field':
+            base = self.val(e['base'], env)
+            if isinstance(base, tuple) and base and base[0] == 'struct' and e.get('name') in base[2]:
+                return base[2][e['name']]
+            if isinstance(base, tuple) and base and base[0] != 'struct' and str(e.get('name')).isdigit() and int(e['name']) < len(base):
+                return base[int(e['name'])]
+            raise Unanalysable(f'field `{e.get("name")}` of a value the evaluator does not model')
         if k == 'struct':
             p = e.get('path') or ''
             f = {x['name']: self.val(x['e'], env) for x in e.get('fields', [])}
+            if 'RangeInclusive' in p and 'start' in f and 'end' in f:
+                return ('range', f['start'], f['end'])
             if 'Range' in p and 'start' in f and 'end' in f:
                 return ('range', f['start'], f['end'] - 1)
+            if 'RangeTo' in p and 'end' in f and 'start' not in f:
+                return ('range', None, f['end'] - (0 if 'Inclusive' in p else 1))
+            if 'RangeFrom' in p and 'start' in f and 'end' not in f:
+                return ('range', f['start'], None)
             return ('struct', p, f)
         if k == 'ret':
             raise Ret(self.val(e['v'], env) if 'v' in e else ())
@@ -449,6 +582,61 @@ class Interp:
     def bind(self, p, v, env):
         if not self.matches(p, v, env):
             raise Unanalysable('refutable let pattern did not match')
+
+    # calls ---------------------------------------------------------------
+    MAX_DEPTH = 12
+
+    def apply(self, clo, args):
+        if not (isinstance(clo, tuple) and clo and clo[0] == 'closure'):
+            raise Unanalysable('call of a value that is not a closure')
+        _, node, cenv = clo
+        env = dict(cenv)
+        params = node.get('params', [])
+        if len(params) != len(args):
+            raise Unanalysable('closure arity')
+        for p, a in zip(params, args):
+            self.bind(p, a, env)
+        return self._call_body(node['body'], env)
+
+    def apply_fn(self, body, args):
+        params = body.get('params', [])
+        if len(params) != len(args):
+            raise Unanalysable('function arity')
+        env = {}
+        for p, a in zip(params, args):
+            self.bind(p, a, env)
+        return self._call_body(body['body'], env)
+
+    def _call_body(self, node, env):
+        self._depth = getattr(self, '_depth', 0) + 1
+        try:
+            if self._depth > self.MAX_DEPTH:
+                raise Unanalysable('call depth')
+            try:
+                return self.val(node, env)
+            except Ret as r:
+                return r.v
+        finally:
+            self._depth -= 1
+
+    def _workspace_body(self, fnode):
+        """HIR body of a called function of the five crates (pure helpers are evaluated, not executed), or None"""
+        facts = getattr(self.ev, 'facts', None)
+        if facts is None or fnode.get('k') != 'path' or fnode.get('res') not in ('Fn', 'AssocFn'):
+            return None
+        for p in (fnode.get('resolved'), fnode.get('path')):
+            if p and p in facts.bodies and p.split('::')[0].lstrip('<') in ('toml', 'toml_edit', 'toml_write', 'toml_datetime', 'serde_spanned'):
+                return facts.bodies[p]
+        return None
+
+    def _workspace_method(self, e):
+        facts = getattr(self.ev, 'facts', None)
+        if facts is None:
+            return None
+        for p in (e.get('resolved'), e.get('callee')):
+            if p and p in facts.bodies and p.split('::')[0].lstrip('<') in ('toml', 'toml_edit', 'toml_write', 'toml_datetime', 'serde_spanned'):
+                return facts.bodies[p]
+        return None
 
     def matches(self, p, v, env):
         k = p.get('k')
@@ -483,6 +671,21 @@ class Interp:
             if isinstance(v, tuple) and len(v) == 3 and v[0] == 'ctor' and v[1] == p.get('path'):
                 return all(self.matches(x, y, env) for x, y in zip(p['pats'], v[2]))
             return False
+        if k == 'p_struct':
+            if isinstance(v, tuple) and len(v) == 3 and v[0] == 'struct':
+                for f in p.get('fields', []):
+                    if f['name'] not in v[2]:
+                        raise Unanalysable(f'struct pattern field `{f["name"]}`')
+                    if not self.matches(f['pat'], v[2][f['name']], env):
+                        return False
+                return True
+            if isinstance(v, tuple) and len(v) == 3 and v[0] == 'ctor':
+                if v[1] != p.get('path'):
+                    return False
+                return all(self.matches(f['pat'], v[2][int(f['name'])], env) for f in p.get('fields', []) if str(f['name']).isdigit())
+            if isinstance(v, tuple) and len(v) == 2 and v[0] == 'ctor':
+                return v[1] == p.get('path')
+            raise Unanalysable('struct pattern on a value the evaluator does not model')
         raise Unanalysable(f'pattern `{k}` in evaluation')
 
 
@@ -543,7 +746,7 @@ class FxInterp(Interp):
         if k == 'assign':
             l = peel(e['lhs'])
             name = l.get('name') if l.get('k') == 'field' else (l.get('path') or '?').split('#')[0]
-            env['@assign'][name] = self.val(e['rhs'], env)
+            env.setdefault('@assign', {})[name] = self.val(e['rhs'], env)
             if l.get('k') == 'path':
                 env[l['path']] = env['@assign'][name]
             return ()
@@ -556,7 +759,7 @@ class FxInterp(Interp):
                 new = {'+=': cur + rhs, '-=': cur - rhs, '+': cur + rhs, '-': cur - rhs}.get(e.get('op'))
             except Exception:
                 new = ('unknown',)
-            env['@assign'][name] = new
+            env.setdefault('@assign', {})[name] = new
             if l.get('k') == 'path':
                 env[l['path']] = new
             return ()
